@@ -377,7 +377,10 @@ class Check:
         self.cov["known_findings_reproduced"] = self.known_hits
         self.cov["notes"] = self.notes
         self.cov["repo_include_sha256"] = repo_hash()
-        with open(os.path.join(VERIF, "evidence", self.id + ".json"), "w") as f:
+        # a replay of one recorded input, or a run against another tree (VERIF_REPO), is not a check of /repo: its record goes to .work/, never over the evidence file
+        ev_path = (os.path.join(VERIF, "evidence", self.id + ".json") if not getattr(self, "is_replay", False) and REPO == "/repo"
+                   else os.path.join(WORK, f"replay-evidence-{self.id}.json"))
+        with open(ev_path, "w") as f:
             json.dump(ev, f, indent=1, default=str)
         for k in self.known:
             n = self.known_hits.get(k["signature"], 0)
